@@ -127,12 +127,14 @@ pub struct TabSut {
     pub next_tok: u32,
     pub class_of: Vec<u8>,
     pub base: Baseline,
+    /// set after a destructor panic (the only situation in which leaks are permitted)
+    pub leaks_allowed: bool,
 }
 
 impl TabSut {
     pub fn new(cfg: &TabCfg) -> Self {
         let base = Baseline::take();
-        TabSut { table: Table::default(), model: Vec::new(), next_tok: 1, class_of: cfg.class_of(), base }
+        TabSut { table: Table::default(), model: Vec::new(), next_tok: 1, class_of: cfg.class_of(), base, leaks_allowed: false }
     }
     fn tok(&mut self) -> u32 {
         let t = self.next_tok;
@@ -267,7 +269,7 @@ impl TabSut {
         }
         let a = self.table.allocation_size();
         let l = env::live_bytes() - self.base.live_bytes;
-        if a != l {
+        if a != l && !self.leaks_allowed {
             return Err(format!("allocation_size() = {a} but the allocator ledger holds {l} bytes"));
         }
         Ok(())
